@@ -16,7 +16,7 @@ import types
 
 from symx.spec import obligation, Int, OptInt, Bool, SKIP
 from symx.bstr import tracing
-from harness.common import Skip, patched, pick, Clock
+from harness.common import Skip, patched, pick, Clock, untraced_re
 from pexpect.exceptions import EOF, TIMEOUT
 from pexpect.spawnbase import SpawnBase
 import pexpect.expect as E
@@ -24,13 +24,14 @@ import pexpect.pty_spawn  # noqa
 RUN = _sys.modules['pexpect.run']
 
 USES_BSTR = False
-ENCODES = ['pexpect.run.run', 'pexpect.run.runu', 'pexpect.spawnbase.SpawnBase.expect',
+ENCODES = ['pexpect.run.run', 'pexpect.spawnbase.SpawnBase.expect',
            'pexpect.spawnbase.SpawnBase.compile_pattern_list', 'pexpect.expect.Expecter.expect_loop']
-STUBS = ['pexpect.run.spawn: a SpawnBase subclass with a scripted read_nonblocking, recording send(), close() setting '
+STUBS = ['pexpect.spawnbase.re: the real module, compile() executed outside tracing',
+         'pexpect.run.spawn: a SpawnBase subclass with a scripted read_nonblocking, recording send(), close() setting '
          'exitstatus', 'buffers: real io objects created outside tracing', 'pexpect.expect.time frozen']
 ASSUMPTIONS = ['dialogue text concrete (two prompts), structure symbolic; <= 3 reads + <= 1 transport TIMEOUT in between']
 
-STREAM = 'one PA two PB three\r\n'
+STREAM = 'aPAbPBc\n'
 
 
 def _real_buffer(kind):
@@ -89,10 +90,11 @@ def _conv(x, uni):
     return x if uni else x.encode('ascii')
 
 
-@obligation(params=dict(c1=Int(0, 21), c2=Int(0, 21), quiet_at=Int(0, 3), end=Int(0, 1), shape=Int(0, 4), kindA=Int(0, 2),
+@obligation(params=dict(c1=Int(0, 8), c2=Int(8, 8), quiet_at=Int(0, 3), end=Int(0, 1), shape=Int(0, 4), kindA=Int(0, 2),
                         cbres=Int(0, 2), uni=Bool(), withexit=Bool(), status=Int(0, 255)),
             tags={2: 'ran to EOF', 3: 'ran into the timeout', 4: 'stopped by a callback', 5: 'TIMEOUT event fired and the run went on'},
-            timeout=900, split=('shape', 'end'),
+            timeout=900, split=('shape', 'end', 'kindA'),
+            thorough=dict(params=dict(c2=Int(0, 8)), timeout=3000, split=('shape', 'end', 'kindA', 'uni')),
             note='shape: 0 dict {PA,PB}, 1 list [(PB..),(PA..)], 2 list with TIMEOUT event, 3 list with EOF event, '
                  '4 no events; kindA: response to PA is a string / function / method; cbres: what a callback returns')
 def R1_run(c1, c2, quiet_at, end, shape, kindA, cbres, uni, withexit, status):
@@ -121,7 +123,7 @@ def R1_run(c1, c2, quiet_at, end, shape, kindA, cbres, uni, withexit, status):
 
     def on_timeout(d):
         ticks.append(d['event_count'])
-        return None
+        return True if len(ticks) >= 2 else None      # a TIMEOUT event never ends by itself: stop at the second one
 
     def on_eof(d):
         ticks.append('eof')
@@ -135,7 +137,7 @@ def R1_run(c1, c2, quiet_at, end, shape, kindA, cbres, uni, withexit, status):
         ch = Child(script, uni, status)
         holder['c'] = ch
         return ch
-    with patched(RUN, spawn=factory), patched(E, time=Clock(0)):
+    with patched(RUN, spawn=factory), patched(E, time=Clock(0)), untraced_re():
         r = RUN.run('prog', withexitstatus=withexit, events=events, encoding='utf-8' if uni else None)
     ch = holder['c']
     out, st = (r if withexit else (r, None))
@@ -181,9 +183,9 @@ def R1_run(c1, c2, quiet_at, end, shape, kindA, cbres, uni, withexit, status):
 def dry_runs():
     for shape in range(5):
         for end in range(2):
-            yield 'R1_run', dict(c1=5, c2=12, quiet_at=3, end=end, shape=shape, kindA=1, cbres=1, uni=bool(shape % 2),
+            yield 'R1_run', dict(c1=2, c2=5, quiet_at=3, end=end, shape=shape, kindA=1, cbres=1, uni=bool(shape % 2),
                                  withexit=True, status=7)
-    yield 'R1_run', dict(c1=5, c2=12, quiet_at=1, end=0, shape=2, kindA=0, cbres=0, uni=False, withexit=False, status=0)
+    yield 'R1_run', dict(c1=2, c2=5, quiet_at=1, end=0, shape=2, kindA=0, cbres=0, uni=False, withexit=False, status=0)
 
 
 MANIFEST_ENTRY = {
